@@ -33,7 +33,7 @@ let () =
     | ["I"; e; s; call; kind; _] ->
       let k = e ^ s in
       (match kind with
-       | "Read" -> Hashtbl.replace eff call (read_eff (get k))
+       | "Read" | "Drain" -> Hashtbl.replace eff call (read_eff (get k))
        | "Write" | "Flood" -> Hashtbl.replace eff call (write_eff (get k))
        | _ -> ());
       print_endline "-"
@@ -50,6 +50,12 @@ let () =
          | "Read", [data; clo; chi; elo; ehi] ->
            Hashtbl.replace ds k (read_return (get k));
            pick (accept_read tol !hz t0 t1 ef data clo chi elo ehi o) (predict_read t0 ef data clo chi elo ehi)
+         | "Drain", [data; clo; chi; elo; ehi; cur; nreads] ->
+           (* a loop of Reads until the first error: the last Read started at cur; every earlier Read returned and
+              reset the deadline, so only a single-Read drain still sees the deadline stored before it *)
+           let ef' = if xb_zltb (z_of_int 1) nreads then Z0 else ef in
+           Hashtbl.replace ds k (read_return (get k));
+           pick (accept_read tol !hz cur t1 ef' data clo chi elo ehi o) (predict_read cur ef' data clo chi elo ehi)
          | "Write", [st; clo; chi; olo; ohi; creq] ->
            let early = (o = CLOSED) && (xb_zltb (z_of_int (-1)) creq) && not (xb_zltb t0 creq) in
            if t1 <> z_of_int (-1) then Hashtbl.replace ds k (write_return (e = "c") early o t1 (get k));
